@@ -274,3 +274,17 @@ func (c *Ctx) pkgNorm(suffix string) *nctx {
 	c.normPkg[suffix] = n
 	return n
 }
+
+// vnorm returns the normal-form enumerator of a template variant (cached).
+func (c *Ctx) vnorm(v *variants.Variant) *nctx {
+	if c.normPkg == nil {
+		c.normPkg = map[string]*nctx{}
+	}
+	key := "variant:" + v.Name
+	if n, ok := c.normPkg[key]; ok {
+		return n
+	}
+	n := newNctx(v.Funcs())
+	c.normPkg[key] = n
+	return n
+}
